@@ -1,6 +1,6 @@
 SPECIFICATION Spec
 CONSTANTS ApfMode = "thorough"
-          NegFail = FALSE
+          NegFail = TRUE
           MaxDepth = 5
 INVARIANTS InStep GateSound AckSound
 VIEW View
